@@ -9,6 +9,7 @@ import (
 	"fmt"
 	"io"
 	"strings"
+	"sync"
 	"time"
 
 	log "github.com/sirupsen/logrus"
@@ -37,6 +38,8 @@ type Client struct {
 	messageSwitch   utils.MessageSwitch
 	stageHandler    *stages.StageHandler
 	transferManager *utils.TransferManager
+	// transferMutex guards transferManager, which is reset when the session ends while Send may still be called.
+	transferMutex sync.RWMutex
 
 	nodeId     bpv7.EndpointID
 	peerNodeId bpv7.EndpointID
@@ -143,7 +146,9 @@ func (client *Client) Start() (err error, retry bool) {
 
 	case sMtu := <-sMtuChan:
 		stageHandlerIn, stageHandlerOut := client.stageHandler.Exchanges()
+		client.transferMutex.Lock()
 		client.transferManager = utils.NewTransferManager(stageHandlerIn, stageHandlerOut, sMtu)
+		client.transferMutex.Unlock()
 	}
 
 	client.log().Info("Started TCPCLv4")
@@ -182,7 +187,9 @@ func (client *Client) handle() {
 			}
 		}
 
+		client.transferMutex.Lock()
 		client.transferManager = nil
+		client.transferMutex.Unlock()
 		client.stageHandler = nil
 		client.messageSwitch = nil
 
@@ -221,7 +228,14 @@ func (client *Client) Send(b bpv7.Bundle) error {
 	client.log().WithField("bundle", b).Debug("Sending Bundle...")
 	defer client.log().WithField("bundle", b).Info("Sent Bundle")
 
-	return client.transferManager.Send(b)
+	client.transferMutex.RLock()
+	transferManager := client.transferManager
+	client.transferMutex.RUnlock()
+
+	if transferManager == nil {
+		return fmt.Errorf("TCPCLv4 session is not established, the Bundle cannot be sent")
+	}
+	return transferManager.Send(b)
 }
 
 // Close signals this Client to shut down.
